@@ -8,6 +8,7 @@
 import GeoModel.ValidationSpec
 import GeoProofs.Lemmas.C14Visit
 import GeoProofs.Lemmas.C14Flat
+import Mathlib.Tactic.Ring
 
 namespace Geo.Proofs.C14
 open Geo Geo.V
@@ -514,5 +515,129 @@ theorem chained_pair_flagged_iff (a b c : Pt) (hab : a ≠ b) (hbc : b ≠ c) :
 example : pairBad (⟨0, 0⟩, ⟨2, 0⟩) (⟨2, 0⟩, ⟨1, 0⟩) = true :=
   (chained_pair_flagged_iff ⟨0, 0⟩ ⟨2, 0⟩ ⟨1, 0⟩ (by decide) (by decide)).mpr
     ⟨by simp [orient, cross], by simp [sameSide]⟩
+
+/-! ## 6. The one-line rules of the other types against the specification -/
+
+private theorem dedup_pos (b : Pt) (t : List Pt) : 1 ≤ (dedupConsecutive (b :: t)).length := by
+  induction t generalizing b with
+  | nil => simp [dedupConsecutive]
+  | cons c t ih =>
+    simp only [dedupConsecutive]
+    split
+    · exact ih c
+    · simp
+
+private theorem dedup_one (t : List Pt) : ∀ a : Pt,
+    (dedupConsecutive (a :: t)).length = 1 ↔ ∀ x ∈ t, x = a := by
+  induction t with
+  | nil => intro a; simp [dedupConsecutive]
+  | cons b t ih =>
+    intro a
+    simp only [dedupConsecutive]
+    by_cases hab : a = b
+    · subst hab
+      simp [ih a]
+    · have h1 : (a == b) = false := by simp [hab]
+      simp only [h1, Bool.false_eq_true, if_false, List.length_cons, List.mem_cons, forall_eq_or_imp]
+      have := dedup_pos b t
+      constructor
+      · intro h; omega
+      · intro h; exact absurd h.1.symm hab
+
+private theorem lsSpec_cons (a : Pt) (t : List Pt) :
+    lineStringSpec (a :: t) = false ↔ ∀ x ∈ t, x = a := by
+  simp only [lineStringSpec, List.isEmpty_cons, Bool.false_or]
+  rw [← Bool.not_eq_true, List.any_eq_true]
+  constructor
+  · intro h x hx
+    by_contra hne
+    apply h
+    exact ⟨x, by simp [hx], by rw [List.any_eq_true]; exact ⟨a, by simp, by simp [hne]⟩⟩
+  · rintro h ⟨c, hc, hd⟩
+    rw [List.any_eq_true] at hd
+    obtain ⟨d, hd, hcd⟩ := hd
+    have hc' : c = a := by
+      rcases List.mem_cons.mp hc with h1 | h1
+      · exact h1
+      · exact h c h1
+    have hd' : d = a := by
+      rcases List.mem_cons.mp hd with h1 | h1
+      · exact h1
+      · exact h d h1
+    simp [hc', hd'] at hcd
+
+/-- [T] LineString: `TooFewPoints` fires exactly when the (non-empty, finite) line string does not
+have two different coordinates — the specification's `lineStringSpec`. -/
+theorem lineString_tooFew_iff_spec (r : List Pt) (hne : r ≠ []) :
+    tooFew (r.map XPt.ofPt) false = true ↔ lineStringSpec r = false := by
+  rw [tooFew_lineString_iff]
+  cases r with
+  | nil => exact absurd rfl hne
+  | cons a t =>
+    rw [lsSpec_cons, ← dedup_one t a]
+    have := dedup_pos a t
+    omega
+
+private theorem notFinite_ofPt (p : Pt) : notFinite (XPt.ofPt p) = false := by
+  simp [notFinite, XPt.ofPt, XNum.isFinite]
+
+/-- [T] LineString, finite coordinates: the error list is empty (`is_valid`) exactly when the
+specification holds. -/
+theorem lineString_valid_iff_spec (r : List Pt) :
+    lineStringErrs (r.map XPt.ofPt) = [] ↔ lineStringSpec r = true := by
+  by_cases hne : r = []
+  · subst hne; simp [lineStringErrs, lineStringSpec]
+  · have hnf : (List.map XPt.ofPt r).zipIdx.flatMap
+        (fun ci => if notFinite ci.1 = true then [LsErr.nonFinite ci.2] else []) = [] := by
+      rw [List.flatMap_eq_nil_iff]
+      intro ci hci
+      have hmem := List.mem_zipIdx_iff_getElem?.mp hci
+      have : ci.1 ∈ List.map XPt.ofPt r := List.mem_of_getElem? hmem
+      obtain ⟨p, _, hp⟩ := List.mem_map.mp this
+      rw [← hp, notFinite_ofPt]; simp
+    have hemp : (List.map XPt.ofPt r).isEmpty = false := by
+      cases r with
+      | nil => exact absurd rfl hne
+      | cons a t => rfl
+    unfold lineStringErrs
+    simp only [hemp, Bool.false_eq_true, if_false, hnf, List.append_nil]
+    cases hs : lineStringSpec r
+    · have := (lineString_tooFew_iff_spec r hne).mpr hs
+      simp [this]
+    · have : tooFew (List.map XPt.ofPt r) false = false := by
+        cases ht : tooFew (List.map XPt.ofPt r) false
+        · rfl
+        · have := (lineString_tooFew_iff_spec r hne).mp ht
+          rw [hs] at this; cases this
+      simp [this]
+
+private theorem collinearX_ofPt (a b c : Pt) :
+    collinearX (XPt.ofPt a) (XPt.ofPt b) (XPt.ofPt c) = (orient a b c == .col) := by
+  simp [collinearX, XPt.toPt?, XPt.ofPt]
+
+private theorem orient_col_of_eq (a b c : Pt) (h : a = b ∨ a = c ∨ b = c) : orient a b c = .col := by
+  rw [orient_col_iff]
+  rcases h with h | h | h <;> subst h <;> unfold cross <;> ring
+
+/-- [T] Triangle, finite coordinates: no error is listed (`is_valid`) exactly when the three
+corners are not collinear (which includes: are distinct). -/
+theorem triangle_valid_iff_spec (a b c : Pt) :
+    triangleErrs (XPt.ofPt a) (XPt.ofPt b) (XPt.ofPt c) = [] ↔ orient a b c ≠ .col := by
+  simp only [triangleErrs, notFinite_ofPt, ceq_ofPt, collinearX_ofPt, Bool.false_eq_true, if_false,
+    List.nil_append]
+  constructor
+  · intro h hcol
+    by_cases hab : a = b
+    · simp [hab] at h
+    · by_cases hac : a = c
+      · simp [hac] at h
+      · by_cases hbc : b = c
+        · simp [hbc] at h
+        · simp [hab, hac, hbc, hcol] at h
+  · intro h
+    have hab : a ≠ b := fun e => h (orient_col_of_eq a b c (Or.inl e))
+    have hac : a ≠ c := fun e => h (orient_col_of_eq a b c (Or.inr (Or.inl e)))
+    have hbc : b ≠ c := fun e => h (orient_col_of_eq a b c (Or.inr (Or.inr e)))
+    simp [hab, hac, hbc, h]
 
 end Geo.Proofs.C14
